@@ -210,7 +210,8 @@ def scenario(exe, r, run, stats, idx, proto=None, force_ok=None):
                       "ids": s.ids and dict((k.decode(), x.hex()) for k, x in s.ids.items()),
                       "snis": s.snis and dict((k.decode(), (h.decode(), x.hex()))
                                               for k, (h, x) in s.snis.items())},
-           "clients": [cli_wit(c, *verdict(s, c)) for c in clients], "script": w.script}
+           "clients": [cli_wit(c, *verdict(s, c)) for c in clients], "script": w.script,
+           "scenario_seed": idx, "forced": [proto, force_ok]}
     try:
         return _scenario(s, clients, w, sim, r, run, stats, wit)
     except world.WorldCrash as e:
@@ -470,7 +471,9 @@ def _scenario(s, clients, w, sim, r, run, stats, wit):
             want = [m["tok"] for m in sorted(acc, key=lambda m: (m["t"], m["i"]))]
             if got or not acc:
                 stats["established_ok"] += 1
-            if not got and not rsps and acc:
+            if not got and not rsps and acc and lossy:
+                stats["not_judged_lossy"] = stats.get("not_judged_lossy", 0) + 1
+            elif not got and not rsps and acc:
                 stats["abandoned"] += 1
                 if plan == "none":
                     run.violation("handshake-failed-with-matching-credentials/%s" % loc, w1,
